@@ -256,7 +256,7 @@ def gen_hist(rng):
     ngens = rng.randint(1, 2)
     task, labels = _id_task(rng, list(range(ngens)), files, "t0", rng.randint(2, 12), False)
     return {"scenario": "hist", "prop": "C11", "labels": labels, "oracles": ORACLES,
-            "cfg": {"flavour": rng.choice(["inc", "inc", "opaque"]), "salt": rng.getrandbits(32), "chunk_max": rng.choice([0, 0, 3]), "fs_seed": rng.getrandbits(30),
+            "cfg": {"flavour": rng.choice(["inc", "inc", "inc", "opaque", "weird"]), "salt": rng.getrandbits(32), "chunk_max": rng.choice([0, 0, 3]), "fs_seed": rng.getrandbits(30),
                     "drop": rng.random() < 0.5, "genclass": rng.choice(["plain", "plain", "journal", "duck", "own"])},
             "gens": ngens, "fs": {"files": files}, "tasks": [task]}
 
@@ -271,7 +271,7 @@ def gen_inter(rng):
         tasks.append(t)
         labels.append(lb)
     spec = {"scenario": "inter", "prop": "C11", "labels": labels, "oracles": ORACLES, "force_kernel": True,
-            "cfg": {"flavour": rng.choice(["inc", "inc", "opaque"]), "salt": rng.getrandbits(32), "chunk_max": 0, "fs_seed": 1,
+            "cfg": {"flavour": rng.choice(["inc", "inc", "inc", "opaque", "weird"]), "salt": rng.getrandbits(32), "chunk_max": 0, "fs_seed": 1,
                     "policy": POLICIES[rng.randrange(len(POLICIES))], "sched_seed": rng.getrandbits(32), "genclass": rng.choice(["plain", "plain", "journal", "duck", "own"])},
             "gens": ngens, "fs": {"files": files}, "tasks": tasks}
     if rng.random() < 0.1:
